@@ -219,10 +219,38 @@ def reader_table(facts, rd):
         bit = "always"
         long_form = False
         unknown = []
+        g2 = []
         for (a, succ, c) in g:
             ct = cond_truth(c)
-            if not ct:
+            if ct:
+                g2.append((a, ct))
                 continue
+            # a test on a locally computed enum value (`match form { Extended => .. }`): it holds exactly where the
+            # value was given that variant, i.e. under the guards of that assignment
+            term_, vals_, neg_, dty_ = c
+            if term_[0] == "discr" and strip_refs(term_[1])[0] == "var":
+                l_ = strip_refs(term_[1])[1]
+                ds_ = rd.defs().get(l_, [])
+                if ds_ and all(d_[2] == "assign" and d_[3]["rv"]["k"] == "agg" and d_[3]["rv"].get("ak") == "adt" and not d_[3]["rv"]["fields"] for d_ in ds_):
+                    sel_ = [d_ for d_ in ds_ if ((d_[3]["rv"].get("vi") in vals_) != neg_)]
+                    if len(sel_) == 1:
+                        outer = set((x[0], x[1]) for x in g)
+                        for (a2, s2, c2) in dom_guards(rd, sel_[0][0], cd):
+                            ct2 = cond_truth(c2)
+                            if (a2, s2) in outer:
+                                continue
+                            if ct2:
+                                g2.append((a2, ct2))
+                            elif c2[3] != "bool" and c2[0][0] != "discr":
+                                # integer switch `match raw & 1 { 0 => .., _ => .. }`
+                                k_ = c2[1]
+                                if len(k_) == 1:
+                                    g2.append((a2, (("bin", "Ne" if c2[2] else "Eq", c2[0], ("const", k_[0], "u8")), True)))
+                                else:
+                                    unknown.append(fmt(c2[0])[:50])
+                        continue
+                unknown.append(fmt(term_)[:50])
+        for (a, ct) in g2:
             d = decode_cond(rd, ct[0], ct[1], a)
             if d is None:
                 unknown.append(fmt(ct[0])[:50])
@@ -553,7 +581,9 @@ def run(facts, rep, ctx):
                 rep.violation(R1, rd.name, "bit-order:" + f, "flag bits are not increasing along the stream at `%s` (%s after %s)" % (f, r["bit"], last_bit), rw)
             last_bit = r["bit"]
         # long-form membership
-        if isinstance(r["bit"], int) and (r["bit"] >= 32) != r["long"]:
+        if isinstance(r["bit"], int) and (r["bit"] >= 32) != r["long"] and r.get("unknown") and not r["long"]:
+            rep.inconc(R2, "`%s` (bit %s): whether it is read under the long-form guard depends on a condition that is not recognised (%s)" % (f, r["bit"], r["unknown"][0]))
+        elif isinstance(r["bit"], int) and (r["bit"] >= 32) != r["long"]:
             rep.violation(R2, rd.name, "long-read:" + f, "`%s` (bit %s) is read %s the long-form guard" % (f, r["bit"], "under" if r["long"] else "outside"), rw)
         if w and isinstance(r["bit"], int) and (r["bit"] >= 32) != w["long"]:
             rep.violation(R2, ap.name, "long-write:" + f, "`%s` (bit %s) is written %s the long-form guard" % (f, r["bit"], "under" if w["long"] else "outside"), ww)
@@ -787,7 +817,33 @@ def form_rules(facts, rep, R2, rd, cf, ap, ftab, rrows=()):
         else:
             rep.violation(R2, cf.name, "long-marker", "bit 0 is not set (only) for the long form after the size computation", cfw)
     else:
-        rep.violation(R2, cf.name, "long-marker-missing", "the long-form marker bit 0 is never set", cfw)
+        # absent only counts when the byte vector that carries the field bits is itself what is returned: a value
+        # derived from it (re-packed through an integer, copied, sliced) may carry the marker in another spelling
+        direct = False
+        for bi_, si_, st_ in cf.stmts():
+            if st_["k"] == "assign" and st_["lhs"]["l"] == 0 and not st_["lhs"]["p"] and st_["rv"]["k"] == "agg" and st_["rv"]["fields"]:
+                f0 = st_["rv"]["fields"][0]
+                pl = f0.get("m") or f0.get("c")
+                if pl is not None and not pl["p"]:
+                    l0 = pl["l"]
+                    for _ in range(4):
+                        ds_ = cf.defs().get(l0, [])
+                        if len(ds_) == 1 and ds_[0][2] == "assign" and ds_[0][3]["rv"]["k"] == "use":
+                            p2 = ds_[0][3]["rv"]["a"].get("m") or ds_[0][3]["rv"]["a"].get("c")
+                            if p2 is not None and not p2["p"]:
+                                l0 = p2["l"]
+                                continue
+                        break
+                    tyl = cf.local_ty(l0) or ""
+                    written = any(st2["k"] == "assign" and st2["lhs"]["l"] == l0 and st2["lhs"]["p"] for _, _, st2 in cf.stmts()) or any(
+                        t2["args"] and (t2["args"][0].get("m") or t2["args"][0].get("c") or {}).get("l") is not None and
+                        any(x == ("var", l0, cf.local_name(l0)) or (x[0] in ("var", "local") and x[1] == l0) for x in walk(cf.term_of_operand(t2["args"][0]))) and
+                        (callee_names(t2)[1] or "").endswith("index_mut") for _, t2 in cf.calls())
+                    direct = tyl.startswith("std::vec::Vec<u8") and written
+        if direct:
+            rep.violation(R2, cf.name, "long-marker-missing", "the long-form marker bit 0 is never set", cfw)
+        else:
+            rep.inconc(R2, "the long-form marker was not found, and the returned flag bytes are derived from the marked ones in a way this rule does not read")
     # size = len(flags) + 4 + 4 * popcount
     size_ok = False
     size_bad = None
